@@ -383,6 +383,63 @@ fn calls_for(group: &str, d: &Desc) -> Vec<Call> {
                 });
             }
         }
+        "eigenvector_oracle" => {
+            // the documented power iteration replayed over the description (uniform start, x <- x + sum over out-steps, L2 normalisation, L1 change
+            // test against n * tolerance): same verdict (Ok at the same iteration / PowerIterationFailedConvergence), same values up to summation order,
+            // one entry per node, no negative entry, Euclidean norm 1. Multi-edge graphs must be refused with WrongMethod.
+            if dd.edges.iter().any(|(_, _, w)| *w == Some(f64::MAX)) { return c; }
+            let n = dd.n;
+            let weighted = dd.edges.iter().any(|(_, _, w)| w.is_some());
+            if dd.multi {
+                oracle!(format!("eigenvector::eigenvector_centrality(&g, {}, Some(50), None)", weighted), move |g| {
+                    match eigenvector::eigenvector_centrality(g, weighted, Some(50), None) { Err(e) if format!("{:?}", e.kind) == "WrongMethod" => Ok(()), Err(e) => Err(format!("Err({:?}) on a multi-edge graph", e.kind)), Ok(_) => Err("Ok on a multi-edge graph".to_string()) }
+                });
+                return c;
+            }
+            // steps a -> b with their weight, each stored pair once per direction it can be walked
+            let mut steps: Vec<(usize, usize, f64)> = vec![];
+            for (u, v, w) in &dd.edges {
+                let x = if weighted { w.unwrap_or(1.0) } else { 1.0 };
+                steps.push((*u, *v, x));
+                if !dd.directed && u != v { steps.push((*v, *u, x)); }
+            }
+            for (max_iter, tol) in [(0u32, 1.0e-6f64), (1, 1.0e-6), (1, 0.3), (2, 0.3), (3, 1.0e-2), (100, 1.0e-6), (100, 1.0e-12)] {
+                let st = steps.clone();
+                oracle!(format!("eigenvector::eigenvector_centrality(&g, {}, Some({}), Some({:e}))", weighted, max_iter, tol), move |g| {
+                    // oracle run; `None` = exhausted; knife-edge comparisons (y within 1e-9 relative of the threshold) make the input undecidable for the oracle: skipped
+                    let mut x = vec![1.0 / n as f64; n];
+                    let mut want: Option<Vec<f64>> = None;
+                    for _ in 0..max_iter {
+                        let xl = x.clone();
+                        for (a, b, w) in &st { x[*b] += xl[*a] * w; }
+                        let mut norm = x.iter().map(|v| v * v).sum::<f64>().sqrt();
+                        if norm == 0.0 { norm = 1.0; }
+                        for v in x.iter_mut() { *v /= norm; }
+                        let y: f64 = x.iter().zip(xl.iter()).map(|(a, b)| (a - b).abs()).sum();
+                        let thr = n as f64 * tol;
+                        if (y - thr).abs() <= 1e-9 * thr.abs() { return Ok(()); }
+                        if y < thr { want = Some(x.clone()); break; }
+                    }
+                    match (eigenvector::eigenvector_centrality(g, weighted, Some(max_iter), Some(tol)), want) {
+                        (Err(e), None) => if format!("{:?}", e.kind) == "PowerIterationFailedConvergence" { Ok(()) } else { Err(format!("Err({:?}) where the iteration is exhausted", e.kind)) },
+                        (Err(e), Some(_)) => Err(format!("Err({:?}) although the documented iteration converges within max_iter", e.kind)),
+                        (Ok(r), None) => Err(format!("Ok({:?}) although the documented iteration does not pass the convergence test within max_iter", r)),
+                        (Ok(r), Some(w)) => {
+                            if r.len() != n { return Err(format!("{} entries for {} nodes", r.len(), n)); }
+                            let mut sq = 0.0;
+                            for i in 0..n {
+                                match r.get(NAMES[i]) {
+                                    Some(got) if *got >= 0.0 && (*got - w[i]).abs() <= 1e-9 => { sq += got * got; }
+                                    other => return Err(format!("centrality of {} is {:?}, the documented iteration gives {}", NAMES[i], other, w[i])),
+                                }
+                            }
+                            if n > 0 && (sq.sqrt() - 1.0).abs() > 1e-9 && sq != 0.0 { return Err(format!("Euclidean norm is {}", sq.sqrt())); }
+                            Ok(())
+                        }
+                    }
+                });
+            }
+        }
         "derived_oracle" => {
             // reverse / get_subgraph / set_all_edge_weights / to_single_edges against their definitions over the description (edge multisets as sorted lists)
             let n = dd.n;
